@@ -97,10 +97,20 @@ pub fn gen_families(r: &mut Rng, types: &[PType]) -> Vec<PFamily> {
 
 #[derive(Serialize, Deserialize, Clone, Debug)]
 pub struct EncPlan {
+    /// batches encoded on the same thread *before* the batch under test (their results are only
+    /// required not to panic): an encoder must not carry anything over from an earlier, possibly
+    /// refused or failed, call
+    #[serde(default)]
+    pub warmup: Vec<Warmup>,
     pub families: Vec<PFamily>,
     pub writer: WriterPlan,
     pub existing: String,
     pub seed: u64,
+}
+#[derive(Serialize, Deserialize, Clone, Debug)]
+pub struct Warmup {
+    pub families: Vec<PFamily>,
+    pub writer: WriterPlan,
 }
 
 fn gen_enc_plan(seed: u64, types: &[PType]) -> EncPlan {
@@ -111,7 +121,53 @@ fn gen_enc_plan(seed: u64, types: &[PType]) -> EncPlan {
         4..=6 => WriterPlan { short_pct: *r.pick(&[10u32, 50, 90]), eintr_pct: *r.pick(&[0u32, 10, 40]), fail_at: None, seed: r.next() },
         _ => WriterPlan { short_pct: *r.pick(&[0u32, 50]), eintr_pct: *r.pick(&[0u32, 20]), fail_at: Some(r.below(600)), seed: r.next() },
     };
-    EncPlan { families, writer, existing: r.pick(&["", "prefix\n", "é", "# junk"]).to_string(), seed }
+    // earlier calls on the same thread: a valid family followed by a refused one, or a writer that
+    // fails in the middle
+    let mut warmup = vec![];
+    for _ in 0..r.below(3) {
+        let mut fams = gen_families(&mut r, types);
+        if r.chance(50) {
+            let i = r.below(fams.len() as u64 + 1) as usize;
+            let mut bad = fams[0].clone();
+            if r.chance(50) {
+                bad.metrics.clear();
+            } else {
+                bad.name = None;
+            }
+            fams.insert(i, bad);
+        }
+        let w = if r.chance(50) { WriterPlan::clean() } else { WriterPlan { short_pct: 20, eintr_pct: 10, fail_at: Some(r.below(200)), seed: r.next() } };
+        warmup.push(Warmup { families: fams, writer: w });
+    }
+    EncPlan { warmup, families, writer, existing: r.pick(&["", "prefix\n", "é", "# junk"]).to_string(), seed }
+}
+
+fn run_warmup(plan: &EncPlan, text: bool, out: &mut RunOut, prop: &str) {
+    for w in &plan.warmup {
+        let mfs: Vec<proto::MetricFamily> = w.families.iter().map(compat::to_proto).collect();
+        let mut fw = FaultyWriter::new(w.writer.clone());
+        let r = if text {
+            catch(|| {
+                let _ = TextEncoder::new().encode(&mfs, &mut fw);
+                let _ = TextEncoder::new().encode_to_string(&mfs);
+            })
+        } else {
+            #[cfg(feature = "pb")]
+            {
+                catch(|| {
+                    let _ = ProtobufEncoder::new().encode(&mfs, &mut fw);
+                })
+            }
+            #[cfg(not(feature = "pb"))]
+            {
+                Ok(())
+            }
+        };
+        if let Err(p) = r {
+            out.violations.push(Violation::new(&format!("{}/panic", prop), format!("{}/panic", prop), format!("an earlier encode call panicked: {}", p)));
+        }
+    }
+    out.probes.push(("earlier_calls_on_same_thread", plan.warmup.len() as u64));
 }
 
 /// What the text format must contain for `f`: histograms get a +Inf bucket unless they have one.
@@ -225,6 +281,7 @@ fn execute_c04(plan: &EncPlan) -> RunOut {
     // in anything with valid names)
     let given = compat::families_of(&mfs);
     let enc = TextEncoder::new();
+    run_warmup(plan, true, &mut out, "C04");
     let v = |c: &str, k: &str, m: String| Violation::new(&format!("C04/{}", c), format!("C04/{}", k), m);
     let mut clean: Vec<u8> = vec![];
     match catch(|| enc.encode(&mfs, &mut clean)) {
@@ -326,7 +383,8 @@ impl Scenario for C04 {
     }
     fn run(&self, plan: &Value, _mode: Mode) -> RunOut {
         let plan: EncPlan = serde_json::from_value(plan.clone()).expect("C04 plan");
-        execute_c04(&plan)
+        // a fresh OS thread per case: thread-local state of an encoder cannot leak between cases
+        isolated(plan.seed, move || execute_c04(&plan))
     }
     fn shrink(&self, plan: &Value) -> Vec<Value> {
         shrink_enc(plan)
@@ -390,6 +448,23 @@ fn shrink_enc(plan: &Value) -> Vec<Value> {
         n.writer = WriterPlan::clean();
         c.push(n);
     }
+    for i in 0..p.warmup.len() {
+        let mut n = p.clone();
+        n.warmup.remove(i);
+        c.push(n);
+        for j in 0..p.warmup[i].families.len() {
+            if p.warmup[i].families.len() > 1 {
+                let mut n = p.clone();
+                n.warmup[i].families.remove(j);
+                c.push(n);
+            }
+        }
+        if p.warmup[i].writer != WriterPlan::clean() {
+            let mut n = p.clone();
+            n.warmup[i].writer = WriterPlan::clean();
+            c.push(n);
+        }
+    }
     c.into_iter().map(|p| serde_json::to_value(p).unwrap()).collect()
 }
 
@@ -404,6 +479,7 @@ fn execute_c13(plan: &EncPlan) -> RunOut {
     let mfs: Vec<proto::MetricFamily> = plan.families.iter().map(compat::to_proto).collect();
     let given = compat::families_of(&mfs);
     let enc = ProtobufEncoder::new();
+    run_warmup(plan, false, &mut out, "C13");
     let v = |c: &str, m: String| Violation::new(&format!("C13/{}", c), format!("C13/{}", c), m);
     let first_bad = given.iter().position(|f| f.name.as_deref().unwrap_or("").is_empty() || f.metrics.is_empty());
     let mut clean: Vec<u8> = vec![];
@@ -511,7 +587,7 @@ impl Scenario for C13 {
     }
     fn run(&self, plan: &Value, _mode: Mode) -> RunOut {
         let plan: EncPlan = serde_json::from_value(plan.clone()).expect("C13 plan");
-        execute_c13(&plan)
+        isolated(plan.seed, move || execute_c13(&plan))
     }
     fn shrink(&self, plan: &Value) -> Vec<Value> {
         shrink_enc(plan)
@@ -681,6 +757,31 @@ fn execute_c17(plan: &ApiPlan) -> RunOut {
                     guard("get_metric_with_label_values", wrong, catch(|| hv.get_metric_with_label_values(&vs).is_ok()));
                     guard("remove_label_values", wrong, catch(|| cv.remove_label_values(&vs).is_ok()));
                     guard("remove_label_values", true, catch(|| cv.remove_label_values(&vs).is_ok()));
+                }
+                // maps that agree with an EXISTING child on every declared name but carry an extra key,
+                // or lack one name: must be refused by lookup and by removal alike
+                for vals in values {
+                    if vals.len() != names.len() || names.is_empty() {
+                        continue;
+                    }
+                    let vs: Vec<&str> = vals.iter().map(|s| s.as_str()).collect();
+                    let _ = cv.get_metric_with_label_values(&vs);
+                    let mut m: HashMap<&str, &str> = HashMap::new();
+                    for (n, v) in names.iter().zip(vs.iter()) {
+                        m.insert(n, v);
+                    }
+                    m.insert("zz_extra", "x");
+                    guard("get_metric_with(extra key, existing child)", true, catch(|| cv.get_metric_with(&m).is_ok()));
+                    guard("remove(extra key, existing child)", true, catch(|| cv.remove(&m).is_ok()));
+                    m.remove("zz_extra");
+                    let first = names[0];
+                    m.remove(first);
+                    guard("get_metric_with(missing key, existing child)", true, catch(|| cv.get_metric_with(&m).is_ok()));
+                    guard("remove(missing key, existing child)", true, catch(|| cv.remove(&m).is_ok()));
+                    m.insert("zz_other", "x");
+                    guard("get_metric_with(renamed key, existing child)", true, catch(|| cv.get_metric_with(&m).is_ok()));
+                    // the child is still there and still removable with the right labels
+                    guard("remove_label_values(existing child)", false, catch(|| cv.remove_label_values(&vs).is_ok()));
                 }
                 for pairs in maps {
                     let mut m: HashMap<&str, &str> = HashMap::new();
